@@ -329,7 +329,7 @@ def _inplace(ctx, pid, observe_fetch):
             else:
                 out = os.path.join(d, "out.bin")  # absent: --seed-output creates it
             try:
-                r = sh([bita, "clone"] + flags + [srv.url(f"a{i}.cba", f"case={i}"), out])
+                r = sh([bita, "clone"] + flags + [srv.url(f"a{i}.cba", f"case={i:04d}"), out])
                 detail = {"layout": name, "source": s, "prior": p if kind != "new-file" else "", "output_kind": kind}
                 if r.returncode != 0:
                     detail["stderr"] = r.stderr.decode()[-300:]
@@ -359,7 +359,7 @@ def _inplace(ctx, pid, observe_fetch):
                                 want[-1][1] = o + 3
                             else:
                                 want.append([o, o + 3])
-                    reqs = [rg for (_t, rg) in srv.requests_for(f"case={i}")]
+                    reqs = [rg for (_t, rg) in srv.requests_for(f"case={i:04d}")]
                     got = []
                     for rg in reqs[2:]:
                         a, b = rg.replace("bytes=", "").split("-")
